@@ -109,6 +109,19 @@ CHECKS = {
                      '(idx = from_fn parameter, so every channel_unchecked index is < N); defaults and the 14 mono overrides agree; array_from_iter fill/cleanup step function; channel iteration and indexing. '
                      'The numeric identities follow with C01/C02 (paper).',
                 note=TB + '; core::array::from_fn / array map are element-wise in order.'),
+    'C09': dict(level='other', ref='DESIGN.md §5 C09, §6 F6',
+                technique='path summaries over MIR (step function of process()), who-may-call rule, constant/provenance rules for sources/sinks',
+                text='Decides dasp\'s use of the traversal: per-call reset and move_to before the loop, Reversed at both sites, one Node::process per yielded node on its own weight with '
+                     '(&processor.inputs, &mut own buffers), clear before the pushes, one Input per incoming neighbour other than the node itself built from that neighbour\'s buffers, Input::new private with a '
+                     'single caller; sources/sinks direction constants, emptiness filter and index-scan bound. NOT decided: correctness of petgraph\'s DfsPostOrder (which nodes, in which order). '
+                     'Known finding: sources()/sinks() scan 0..node_count() (wrong for graphs with vacant indices).',
+                note=TB + '; petgraph as documented; dasp_graph links the registry copies of the sibling crates.'),
+    'C16': dict(level='other', ref='DESIGN.md §5 C16',
+                technique='path summaries with an element-of abstraction for iterator-driven loops (iter/iter_mut/zip/enumerate/range)',
+                text='Sum (silence all, then add the same-index buffer of every input that has it), SumBuffers (silence first, add every buffer of every input, copy to the rest), Pass (first input, position-wise copy, '
+                     'untouched when absent), Delay (out[c][i] = ring[c].push(in[c][i])), signal node (min(CHANNELS, outputs) channels, Buffer::LEN frames, one next per frame, scatter), GraphNode (copy in, process once, copy out), '
+                     'seven forwarding wrappers. Delay length / nested-graph equivalence follow with C06 / C09 (paper).',
+                note=TB + '; core iterator adaptors position-wise in order; registry dasp_slice / dasp_ring_buffer API as documented.'),
 }
 
 NOT_YET = 'check not implemented yet in this revision of /verif (see DESIGN.md §10 build order)'
